@@ -10,3 +10,28 @@
             &&& (self.dbm.proofs.contains_key(t) ==> self.towers@[t].status == TowerStatus::Misbehaving)
         }
     }
+
+    // C05: a (tower, locator) pair is recorded as accepted (signed receipt stored), pending or invalid (full data stored)
+    pub open spec fn recorded(&self, t: TowerId, l: Locator) -> bool {
+        self.dbm.appt_receipts.contains_key((t, l)) || self.dbm.pending.contains((t, l)) || self.dbm.invalid.contains((t, l))
+    }
+    // C05 "exactly one of": no pair is in two of the three relations
+    pub open spec fn classified_once(&self) -> bool {
+        &&& forall|k: (TowerId, Locator)| #[trigger] self.dbm.pending.contains(k) ==> !self.dbm.appt_receipts.contains_key(k) && !self.dbm.invalid.contains(k)
+        &&& forall|k: (TowerId, Locator)| #[trigger] self.dbm.invalid.contains(k) ==> !self.dbm.appt_receipts.contains_key(k)
+    }
+    // the three relations only grow (nothing that was recorded is forgotten or re-classified)
+    pub open spec fn keeps_records_of(&self, o: &WTClient) -> bool {
+        &&& forall|k: (TowerId, Locator)| #[trigger] o.dbm.appt_receipts.contains_key(k) ==> self.dbm.appt_receipts.contains_key(k) && self.dbm.appt_receipts[k] == o.dbm.appt_receipts[k]
+        &&& forall|k: (TowerId, Locator)| #[trigger] o.dbm.pending.contains(k) ==> self.dbm.pending.contains(k)
+        &&& forall|k: (TowerId, Locator)| #[trigger] o.dbm.invalid.contains(k) ==> self.dbm.invalid.contains(k)
+        &&& forall|l: Locator| #[trigger] o.dbm.bodies.contains_key(l) ==> self.dbm.bodies.contains_key(l) && self.dbm.bodies[l] == o.dbm.bodies[l]
+    }
+
+    // C18: the in-memory summaries of the other towers are untouched, and the addressed tower keeps its status
+    pub open spec fn others_untouched(&self, o: &WTClient, t: TowerId) -> bool {
+        forall|x: TowerId| x != t && #[trigger] o.towers@.contains_key(x) ==> self.towers@.contains_key(x) && self.towers@[x] == o.towers@[x]
+    }
+    pub open spec fn status_kept(&self, o: &WTClient, t: TowerId) -> bool {
+        o.towers@.contains_key(t) ==> self.towers@.contains_key(t) && self.towers@[t].status == o.towers@[t].status
+    }
